@@ -697,6 +697,8 @@ theorem addResponse_inv {d : BDir} {anc : List Up} {c c' : Cat} (hc : Inv c)
   try simp only [] at h
   split at h
   · exact absurd h fail_ne_ok
+  split at h
+  · exact absurd h fail_ne_ok
   · obtain ⟨nt, _, h⟩ := bind_ok h
     try simp only [] at h
     replace h := ite_fail h
